@@ -23,6 +23,7 @@ import (
 	"errors"
 	"fmt"
 	"hash/fnv"
+	"runtime"
 	"sync"
 	"sync/atomic"
 	"testing"
@@ -40,6 +41,30 @@ type rig struct {
 	mu     sync.Mutex
 	events []byte
 	ninst  int
+
+	// concurrent phase: logical clock, log of New and Stop calls
+	clock   atomic.Int64
+	news    []*inst
+	stops   []stopRec
+	rearmMu sync.RWMutex
+	noRearm bool
+}
+
+type stopRec struct {
+	all       bool
+	ids, excl []util.TimerID
+	call, ret int64
+}
+
+func (s stopRec) covers(id util.TimerID) bool {
+	switch {
+	case s.all:
+		return true
+	case s.excl != nil:
+		return !has(s.excl, id)
+	default:
+		return has(s.ids, id)
+	}
 }
 
 func (g *rig) ev(kind byte, n int) {
@@ -76,6 +101,31 @@ type inst struct {
 	// directed schedules
 	ivlHook func(n uint64, nth int)
 	cbHook  func(k int) (bool, error, bool)
+
+	// whenRemoved hook given to NewSimpleTimer
+	removedCalls atomic.Int64
+	hookDelay    int
+	removedFn    func()
+
+	// concurrent phase
+	rearmAt          int // callback number that registers a new instance under the same id (-1: never)
+	callClk, retClk  int64
+	added            bool
+}
+
+// whenRemoved is what SimpleTimers calls when it removes this timer.
+func (x *inst) whenRemoved() {
+	x.removedCalls.Add(1)
+	x.g.r.Count("whenRemoved_calls", 1)
+	if x.removedFn != nil {
+		x.removedFn()
+	}
+	switch x.hookDelay {
+	case 1:
+		runtime.Gosched()
+	case 2:
+		time.Sleep(100 * time.Microsecond)
+	}
 }
 
 func (x *inst) ivl(n uint64) time.Duration {
@@ -159,6 +209,9 @@ func (x *inst) callback(ctx context.Context, _ uint64) (bool, error) {
 			keep, err = hk, he
 		}
 	}
+	if x.rearmAt >= 0 && k == x.rearmAt {
+		x.g.rearm(x)
+	}
 	switch x.slow {
 	case 1:
 		time.Sleep(200 * time.Microsecond)
@@ -183,12 +236,12 @@ func (g *rig) newInst(id util.TimerID) *inst {
 	g.ninst++
 	n := g.ninst
 	g.mu.Unlock()
-	return &inst{g: g, n: n, id: id, base: time.Millisecond, keepUntil: -1, errAt: -1, zeroAt: -1, immortal: true, ivlCalls: map[uint64]int{}}
+	return &inst{g: g, n: n, id: id, base: time.Millisecond, keepUntil: -1, errAt: -1, zeroAt: -1, rearmAt: -1, immortal: true, ivlCalls: map[uint64]int{}}
 }
 
 func (g *rig) register(x *inst) (bool, error) {
 	x.t0 = time.Now()
-	added, err := g.ts.New(x.id, x.interval, x.callback)
+	added, err := g.ts.NewTimer(util.NewSimpleTimer(x.id, x.interval, x.callback, x.whenRemoved))
 	g.ev('N', x.n)
 	g.r.Count("timers_registered", 1)
 	return added, err
@@ -445,6 +498,265 @@ func randomCase(r *vlib.Run, idx int) {
 }
 
 // ---------------------------------------------------------------------------
+// concurrent registration: New() from a second controller and from timer
+// callbacks (re-arming their own id) races Stop*() calls of the first
+// controller on the same ids.
+//
+// Judged only where the statement fixes the outcome. For an instance Y that
+// cannot finish by itself and whose New returned added=true, at a point where
+// every New/Stop call has returned and no callback can re-arm any more:
+//   rule 1: if every Stop* covering Y's id returned before Y's New was called
+//           and every other New under that id returned before Y's New was
+//           called, Y must be listed;
+//   rule 2: if every other New under that id returned before Y's New was
+//           called (nothing can have replaced Y) and Y is not listed, then Y
+//           was removed as a timer, and removal calls its whenRemoved hook
+//           before the removing call returns. A Y that is gone without that
+//           was dropped from the registry by the removal of another timer.
+// A New concurrent with a Stop* covering its id may or may not survive.
+
+func (g *rig) registerLogged(x *inst) {
+	x.t0 = time.Now()
+	call := g.clock.Add(1)
+	added, err := g.ts.NewTimer(util.NewSimpleTimer(x.id, x.interval, x.callback, x.whenRemoved))
+	ret := g.clock.Add(1)
+	g.mu.Lock()
+	x.callClk, x.retClk, x.added = call, ret, added && err == nil
+	g.news = append(g.news, x)
+	g.events = append(g.events, 'N', byte(x.n), byte(x.n>>8))
+	g.mu.Unlock()
+	g.r.Count("timers_registered", 1)
+	g.r.Count("timers_registered_concurrently_with_stops", 1)
+}
+
+func (g *rig) rearm(x *inst) {
+	g.rearmMu.RLock()
+	defer g.rearmMu.RUnlock()
+	if g.noRearm {
+		return
+	}
+	y := g.newInst(x.id)
+	y.base = x.base
+	y.fate = "re-armed-by-its-own-callback"
+	g.r.Count("registrations_from_inside_a_callback", 1)
+	g.registerLogged(y)
+}
+
+func (g *rig) setRearm(on bool) {
+	g.rearmMu.Lock() // waits for callbacks which are inside New
+	g.noRearm = !on
+	g.rearmMu.Unlock()
+}
+
+func (g *rig) loggedStop(rec stopRec, call func()) {
+	rec.call = g.clock.Add(1)
+	call()
+	rec.ret = g.clock.Add(1)
+	g.mu.Lock()
+	g.stops = append(g.stops, rec)
+	g.events = append(g.events, 'S', byte(len(g.stops)), 0)
+	g.mu.Unlock()
+	g.r.Count("stop_calls_concurrent_with_registrations", 1)
+}
+
+// judge applies rule 1 and 2 to the instances registered since clock `since`.
+func (g *rig) judge(since int64, via string) {
+	ids := g.ts.TimerIDs()
+	g.mu.Lock()
+	defer g.mu.Unlock()
+	g.r.Count("quiescent_judgements", 1)
+	for _, y := range g.news {
+		if y.callClk <= since || !y.added || !y.immortal {
+			continue
+		}
+		stopMaybe, replMaybe := false, false
+		for _, s := range g.stops {
+			if s.ret > y.callClk && s.covers(y.id) {
+				stopMaybe = true
+				break
+			}
+		}
+		for _, o := range g.news {
+			if o != y && o.id == y.id && o.added && o.retClk > y.callClk {
+				replMaybe = true
+				break
+			}
+		}
+		listed := has(ids, y.id)
+		w := map[string]any{"rig": g.name, "instance": y.n, "id": string(y.id), "registered_ids": ids, "registered_by": y.fate, "whenRemoved_calls": y.removedCalls.Load(), "callback_starts": y.nstarts.Load()}
+		switch {
+		case replMaybe:
+			g.r.Count("judged_skipped_possibly_replaced", 1)
+		case !stopMaybe:
+			g.r.Count("judged_must_be_listed", 1)
+			if !listed {
+				g.r.Violation("b:registered-timer-removed:no-stop-could-cover-it",
+					fmt.Sprintf("instance %d under id %q: every stop covering the id had returned before its New was called, nothing was registered under the id afterwards, but it is not listed (%s)", y.n, y.id, via), w)
+			}
+		case listed:
+			g.r.Count("judged_survived_a_concurrent_stop", 1)
+		case y.removedCalls.Load() == 0:
+			g.r.Violation("b:timer-dropped-from-registry-without-being-removed-itself",
+				fmt.Sprintf("instance %d under id %q was registered (New returned added=true) concurrently with a stop of that id; nothing could have replaced it, all calls have returned, it is not listed, and its whenRemoved hook was never called: the removal of its predecessor took it out of the registry (%s)", y.n, y.id, via), w)
+		default:
+			g.r.Count("judged_stopped_by_a_concurrent_stop", 1)
+		}
+	}
+}
+
+func concurrentCase(r *vlib.Run, idx int) {
+	rng := r.Rand(35, idx)
+	size := uint64(1)
+	if rng.Intn(2) == 0 {
+		size = uint64(2 + rng.Intn(7))
+	}
+	g, ok := newRig(r, fmt.Sprintf("concurrent-%d", idx), size)
+	if !ok {
+		return
+	}
+	nids := 1 + rng.Intn(3)
+	ids := make([]util.TimerID, nids)
+	for i := range ids {
+		ids[i] = util.TimerID(fmt.Sprintf("t%d", i))
+	}
+	rounds := 20 + rng.Intn(r.N(40, 200))
+	finished := r.WithWatchdog(120*time.Second, g.name, func() {
+		for round := 0; round < rounds; round++ {
+			since := g.clock.Load()
+			g.setRearm(true)
+			ra, rb := r.Rand(35, idx, round, 0), r.Rand(35, idx, round, 1)
+			var wg sync.WaitGroup
+			wg.Add(2)
+			go func() { // controller A: stops
+				defer wg.Done()
+				for k, n := 0, 1+ra.Intn(3); k < n; k++ {
+					for y := ra.Intn(4); y > 0; y-- {
+						runtime.Gosched()
+					}
+					switch ra.Intn(6) {
+					case 0:
+						g.loggedStop(stopRec{all: true}, func() { _ = g.ts.StopAllTimers() })
+					case 1:
+						excl := []util.TimerID{ids[ra.Intn(nids)]}
+						g.loggedStop(stopRec{excl: excl}, func() { _ = g.ts.StopOthers(excl) })
+					default:
+						var cov []util.TimerID
+						for _, id := range ids {
+							if ra.Intn(2) == 0 {
+								cov = append(cov, id)
+							}
+						}
+						if len(cov) == 0 {
+							cov = []util.TimerID{ids[0]}
+						}
+						g.loggedStop(stopRec{ids: cov}, func() { _ = g.ts.StopTimers(cov) })
+					}
+				}
+			}()
+			go func() { // controller B: registrations under the same ids
+				defer wg.Done()
+				for k, n := 0, 1+rb.Intn(4); k < n; k++ {
+					for y := rb.Intn(4); y > 0; y-- {
+						runtime.Gosched()
+					}
+					x := g.newInst(ids[rb.Intn(nids)])
+					x.base = time.Duration(1+rb.Intn(3)) * time.Millisecond
+					x.hookDelay = rb.Intn(3)
+					x.fate = "second-controller"
+					switch rb.Intn(6) {
+					case 0:
+						x.keepUntil, x.immortal = rb.Intn(2), false
+					case 1:
+						x.errAt, x.immortal = rb.Intn(2), false
+					case 2, 3:
+						x.rearmAt = rb.Intn(2)
+					}
+					g.registerLogged(x)
+				}
+			}()
+			wg.Wait()
+			if rng.Intn(2) == 0 {
+				time.Sleep(time.Duration(1000+rng.Intn(2500)) * time.Microsecond) // lets timers fire and re-arm
+			}
+			g.setRearm(false)
+			g.judge(since, "end of a round of concurrent New/Stop calls")
+		}
+		_ = g.ts.Stop()
+	})
+	if !finished {
+		return
+	}
+	r.Case(fmt.Sprintf("concurrent:ids%d:size%d:%s", nids, size, g.fingerprint()))
+	r.SetAdd("interleavings_seen", g.fingerprint())
+	if idx == 0 {
+		g.mu.Lock()
+		r.Sample(map[string]any{"concurrent_case": idx, "rounds": rounds, "ids": nids, "registrations": len(g.news), "stop_calls": len(g.stops)})
+		g.mu.Unlock()
+	}
+}
+
+// directedRemovalWindow: the whenRemoved hook of X (user code that
+// SimpleTimers runs while it removes X) is still running when another
+// goroutine registers Y under the same id. The hook waits only until that New
+// has been *called* and then a little longer, never for its return.
+func directedRemovalWindow(r *vlib.Run, size uint64) {
+	name := fmt.Sprintf("directed-new-during-whenRemoved-size%d", size)
+	g, ok := newRig(r, name, size)
+	if !ok {
+		return
+	}
+	defer func() { _ = g.ts.Stop() }()
+	id := util.TimerID("reused")
+	inHook := make(chan struct{})
+	newCalled := make(chan struct{})
+	var once sync.Once
+	var timedOut atomic.Bool
+	x := g.newInst(id)
+	x.base = 50 * time.Millisecond
+	x.removedFn = func() {
+		once.Do(func() {
+			close(inHook)
+			if !waitCh(newCalled, 10*time.Second) {
+				timedOut.Store(true)
+			}
+			time.Sleep(2 * time.Millisecond)
+		})
+	}
+	g.registerLogged(x)
+	since := g.clock.Load()
+	y := g.newInst(id)
+	y.fate = "second-controller"
+	var wg sync.WaitGroup
+	wg.Add(2)
+	go func() {
+		defer wg.Done()
+		cov := []util.TimerID{id}
+		g.loggedStop(stopRec{ids: cov}, func() { _ = g.ts.StopTimers(cov) })
+	}()
+	go func() {
+		defer wg.Done()
+		if !waitCh(inHook, 10*time.Second) {
+			timedOut.Store(true)
+		}
+		go func() {
+			runtime.Gosched()
+			close(newCalled)
+		}()
+		g.registerLogged(y)
+	}()
+	if !r.WithWatchdog(60*time.Second, name, wg.Wait) {
+		return
+	}
+	if timedOut.Load() {
+		r.Inconclusive(name + ": the schedule could not be set up")
+		return
+	}
+	g.judge(since, name)
+	r.Case("directed:" + name + ":" + g.fingerprint())
+	r.Count("directed_schedules", 1)
+}
+
+// ---------------------------------------------------------------------------
 // directed schedules
 
 func waitCh(ch chan struct{}, d time.Duration) bool {
@@ -555,10 +867,11 @@ func directed(r *vlib.Run, idx int, hold string, action string, size uint64) {
 func TestC34(t *testing.T) {
 	r := vlib.Start(t, "C34", vlib.LevelExploration)
 	defer r.Finish()
-	r.SetRule("case = one SimpleTimers daemon (resolution 1ms, map size 1..8) driven by one controller: 200-2000 seeded steps of New (intervals 1-5ms(+0..2ms by call number), callbacks instant/0.2ms/1.5ms, some instances finish by keep=false / error / interval 0), StopTimers / StopOthers / StopAllTimers over 2-6 reused ids, membership probes, pauses 0-1.5ms; then a closing phase registering a successor under every id right after StopAllTimers. Plus directed schedules that hold an instance inside run() (in the interval function called between the stopped-check and the callback, or inside the callback) while the controller stops or replaces it and registers a successor under the same id. distinct = hash of the observed order of register/stop/callback-start events; non-trivial = every case (ids are always reused)")
+	r.SetRule("case = one SimpleTimers daemon (resolution 1ms, map size 1..8) driven by one controller: 200-2000 seeded steps of New (intervals 1-5ms(+0..2ms by call number), callbacks instant/0.2ms/1.5ms, some instances finish by keep=false / error / interval 0), StopTimers / StopOthers / StopAllTimers over 2-6 reused ids, membership probes, pauses 0-1.5ms; then a closing phase registering a successor under every id right after StopAllTimers. Plus concurrent cases: 20-60 rounds in which a second controller registers under 1-3 ids and callbacks re-register their own id while the first controller runs StopTimers/StopOthers/StopAllTimers over them, judged at the quiescent end of each round. Plus directed schedules that hold an instance inside run() (in the interval function called between the stopped-check and the callback, or inside the callback) while the controller stops or replaces it and registers a successor under the same id. distinct = hash of the observed order of register/stop/callback-start events; non-trivial = every case (ids are always reused)")
 	r.Assume("clause (a) is judged by happens-before: a callback start is a violation only if the instance's own earlier code had already seen that the covering stop call returned; starts that may be concurrent with the stop call are counted as starts_possibly_concurrent_with_stop_not_judged")
 	r.Assume("clause (c) uses a one-sided bound: time from just before New (or from the previous callback start) to the callback start must be at least the interval; machine load can only lengthen it")
-	r.Assume("one controller goroutine per SimpleTimers issues all New/Stop* calls, so the controller knows exactly which instance a stop covered")
+	r.Assume("in the single-controller cases one goroutine issues all New/Stop* calls, so the controller knows exactly which instance a stop covered; clause (a) is judged only there")
+	r.Assume("in the concurrent cases (second controller and callbacks re-arming their own id while the first controller stops it) a registration concurrent with a stop covering its id may or may not survive; judged are only: a registration no stop could have covered and nothing replaced must be listed, and a registration that nothing replaced and that is gone must have had its own whenRemoved hook called (a removal runs the hook of the timer it removes before it returns)")
 
 	// directed schedules (deterministic)
 	di := 0
@@ -569,8 +882,14 @@ func TestC34(t *testing.T) {
 		}
 	}
 
+	for _, size := range []uint64{1, 4} {
+		directedRemovalWindow(r, size)
+	}
+
 	n := r.N(160, 2400)
 	vlib.Parallel(n, 8, func(i int) { randomCase(r, i) })
+	nc := r.N(64, 1000)
+	vlib.Parallel(nc, 8, func(i int) { concurrentCase(r, i) })
 
 	if r.Counter("callback_starts") == 0 || r.Counter("timers_stopped") == 0 {
 		r.Inconclusive("no callback starts or no stops observed")
